@@ -12,6 +12,7 @@ Programs are `List UInt8` of length < 2^32 (a Go slice of ≥ 4 GiB would be tru
 `uint32(len(prog))`; such programs are outside the hypotheses).
 -/
 import BytomModel.Model.Asm
+import BytomModel.Model.StdProgs
 import BytomModel.Lemmas.Asm
 
 namespace BytomModel.Props.C09
@@ -417,6 +418,32 @@ theorem p2wsh_accepts_only_built (p : Bytes) (hp : p.length < 4294967296)
         simp [this, byte]
       · unfold getHashFromStandardProg
         rw [hpar]; simp [hd]
+
+/-- (C02 groundwork) on a program `IsP2WPKHScript` accepts, `ConvertP2PKHSigProgram` does not
+    panic and returns `P2PKHSigProgram` of the committed hash:
+    `validation.convertProgram(P2WPKHProgram(h)) = DUP HASH160 <h> EQUALVERIFY TXSIGHASH SWAP CHECKSIG` -/
+theorem convert_p2wpkh (p : Bytes) (hp : p.length < 4294967296) (h : isP2WPKHScript p = true) :
+    ∃ hash : Bytes, hash.length = 20 ∧ p = p2wpkhProgram hash ∧
+      BytomModel.StdProgs.convertP2PKHSigProgram p = .ok (BytomModel.StdProgs.p2pkhSigProgram hash) := by
+  obtain ⟨hash, hl, hpe, hget⟩ := p2wpkh_accepts_only_built p hp h
+  refine ⟨hash, hl, hpe, ?_⟩
+  have hpar := parse_p2w hash (by unfold maxInt32; omega)
+  rw [← hpe] at hpar
+  unfold BytomModel.StdProgs.convertP2PKHSigProgram BytomModel.StdProgs.convertWith
+  rw [hpar]
+  simp [opIs, Ops.OP_0]
+
+/-- (C02 groundwork) the same for pay-to-script-hash -/
+theorem convert_p2wsh (p : Bytes) (hp : p.length < 4294967296) (h : isP2WSHScript p = true) :
+    ∃ hash : Bytes, hash.length = 32 ∧ p = p2wshProgram hash ∧
+      BytomModel.StdProgs.convertP2SHProgram p = .ok (BytomModel.StdProgs.p2shProgram hash) := by
+  obtain ⟨hash, hl, hpe, hget⟩ := p2wsh_accepts_only_built p hp h
+  refine ⟨hash, hl, hpe, ?_⟩
+  have hpar := parse_p2w hash (by unfold maxInt32; omega)
+  rw [← p2wsh_eq_p2wpkh, ← hpe] at hpar
+  unfold BytomModel.StdProgs.convertP2SHProgram BytomModel.StdProgs.convertWith
+  rw [hpar]
+  simp [opIs, Ops.OP_0]
 
 /-- **mutual exclusion.** On ANY byte string at most one of the five recognisers answers
     true (IsP2WScript is by definition the union of the first three). -/
